@@ -25,12 +25,16 @@ type params struct {
 	F        int
 	P        int
 	Refuse   bool // broker refuses the resume of the first stream (non-conflict code)
+	Conflict bool // broker answers the first resume attempt of every stream with RESUME_REQUEST_CONFLICT, the next with success
 	Lemma    string
 }
 
 func (p params) name() string {
 	if p.Kind == "lemma" {
 		return "lemma/" + p.Lemma + fmt.Sprintf("/P%d", p.P)
+	}
+	if p.Conflict {
+		return fmt.Sprintf("%s/%s/F%d/P%d/conflict", p.Streams, p.InFlight, p.F, p.P)
 	}
 	return fmt.Sprintf("%s/%s/F%d/P%d/refuse%v", p.Streams, p.InFlight, p.F, p.P, p.Refuse)
 }
@@ -56,6 +60,8 @@ func scenarios(tier string) []vlib.Scenario {
 		}
 	}
 	add(params{Kind: "e", Streams: "up+down", InFlight: "none", F: 1, Refuse: true})
+	add(params{Kind: "e", Streams: "up+down", InFlight: "none", F: 1, Conflict: true})
+	add(params{Kind: "e", Streams: "upR+upU", InFlight: "none", F: 1, Conflict: true})
 	add(params{Kind: "e", Streams: "upR+upU", InFlight: "none", F: 1, Refuse: true})
 	add(params{Kind: "e", Streams: "up+down", InFlight: "none", F: 1, P: 1})
 	add(params{Kind: "e", Streams: "up", InFlight: "meta", F: 1, P: 1})
@@ -184,6 +190,20 @@ func (w *world) script() *sim.Script {
 			return false, 0
 		}
 		return true, 0
+	}
+	if w.p.Conflict {
+		s.UpResumeResult = func(c *sim.BConn, u *sim.UpStream, attempt int) message.ResultCode {
+			if attempt == 0 {
+				return message.ResultCodeResumeRequestConflict
+			}
+			return message.ResultCodeSucceeded
+		}
+		s.DownResumeResult = func(c *sim.BConn, d *sim.DownStream, attempt int) message.ResultCode {
+			if attempt == 0 {
+				return message.ResultCodeResumeRequestConflict
+			}
+			return message.ResultCodeSucceeded
+		}
 	}
 	if w.p.Refuse {
 		s.UpResumeResult = func(c *sim.BConn, u *sim.UpStream, attempt int) message.ResultCode {
@@ -426,6 +446,9 @@ func run(sc vlib.Scenario, cfg vsched.Config) (*vsched.Result, vlib.Verdict) {
 		if !closed && !resumedOnLive && reached {
 			v.Fail("C05.detached", fmt.Sprintf("upstream/dev=%v", dev), "upstream %s was neither resumed on the live incarnation %d (resume requests on %v) nor reported closed (closed events %v)", u.Name, live.Idx, bu.Resumes, u.Closed)
 		}
+		if closed && w.p.Conflict && w.cuts == 1 {
+			v.Fail("C05.conflict", "upstream-closed-although-accepted", "upstream %s was reported closed (%v) although the broker accepted its resume on the second attempt (first: conflict)", u.Name, u.Closed)
+		}
 		if closed && w.p.Refuse && i != 0 && w.cuts == 1 {
 			v.Fail("C05.isolation", "upstream-closed-with-other", "upstream %s was closed although only stream 0's resume was refused", u.Name)
 		}
@@ -449,6 +472,9 @@ func run(sc vlib.Scenario, cfg vsched.Config) (*vsched.Result, vlib.Verdict) {
 		}
 		if !closed && !resumedOnLive && reached {
 			v.Fail("C05.detached", fmt.Sprintf("downstream/dev=%v", dev), "downstream %s was neither resumed on the live incarnation %d (resume requests on %v) nor reported closed (closed events %v)", d.Name, live.Idx, bd.Resumes, d.Closed)
+		}
+		if closed && w.p.Conflict && w.cuts == 1 {
+			v.Fail("C05.conflict", "downstream-closed-although-accepted", "downstream %s was reported closed (%v) although the broker would accept its resume on the second attempt (first: conflict)", d.Name, d.Closed)
 		}
 		if !closed && reached && resumedOnLive {
 			if wk, ok := w.works[d.Name]; ok && wk != "sent=true read=nil ok=true" {
